@@ -5,5 +5,6 @@ CONSTANTS
   MaxPool = 9
   Modes <- c_Modes
   NViews = 3
+  EditLeaves = {"s1", "s2", "s3"}
 INIT Init
 NEXT Next
